@@ -259,6 +259,10 @@ def _mode_t(ctx):
     npre = ctx.choice(4, "npreempt") if (ctx.params.get("tier") == "thorough" or ctx.choice(4, "preq") == 0) else 0
     pre = [1 + ctx.choice(6000, "prepos") for _ in range(npre)]
     ctx.enable_threads(policy, pre, os.path.join(patch.REPO, "canopen"))
+    if ctx.choice(3, "stalls") == 1:
+        # slow tasks: a woken thread is scheduled late (well below the SDO time-out)
+        ctx.stall = lambda: (0, 0, 0, 200 * US, 2 * MS)[ctx.choice(5, "stall")]
+        ctx.fault("slow-task")
     ch = world.make_channel(ctx)
     ch.inline_mode = ctx.choice(3, "inline") == 1
     ch.unsafe_driver = ctx.choice(2, "unsafe") == 0
